@@ -385,8 +385,12 @@ class MultitaskMultivariateNormal(MultivariateNormal):
                 # slice x slice or indices x slice or slice x indices
                 if isinstance(row_idx, slice):
                     row_idx = torch.arange(num_rows)[row_idx]
+                else:
+                    row_idx = row_idx % num_rows  # negative entries count from the end
                 if isinstance(col_idx, slice):
                     col_idx = torch.arange(num_cols)[col_idx]
+                else:
+                    col_idx = col_idx % num_cols
                 row_grid, col_grid = torch.meshgrid(row_idx, col_idx, indexing="ij")
                 indices = (row_grid * num_cols + col_grid).reshape(-1)
                 new_cov = self.lazy_covariance_matrix[batch_idx + (indices,)][..., indices]
@@ -394,8 +398,8 @@ class MultitaskMultivariateNormal(MultivariateNormal):
                     mean=new_mean, covariance_matrix=new_cov, interleaved=self._interleaved, validate_args=False
                 )
             else:
-                # row_idx and col_idx have pairs of indices
-                indices = row_idx * num_cols + col_idx
+                # row_idx and col_idx have pairs of indices (negative entries count from the end)
+                indices = (row_idx % num_rows) * num_cols + (col_idx % num_cols)
                 new_cov = self.lazy_covariance_matrix[batch_idx + (indices,)][..., indices]
                 return MultivariateNormal(
                     mean=new_mean,
